@@ -212,3 +212,12 @@ def make_potential(model, log=None):
             return super().findLocalMinimum(initialGuess, temperature, tol)
 
     return Pot()
+
+
+def pipeline_model(name, u=1.0, **kw):
+    """models used for whole-pipeline runs: both phases exist over the whole temperature range the manager
+    traces (0.8 Tn .. ~1.3 Tn).  one-field: E=0.155, T0=100, Tc=224.1, T1=317.7, Tn = 210..215 (alpha_n ~ 0.011,
+    LTE deflagration); two-field: alpha_n ~ 0.005 at Tn = 0.92 Th"""
+    if name == "one":
+        return OneField(E=0.155, c=kw.pop("c", 10.0), u=u)
+    return TwoField(c=5.0, u=u, **kw)
